@@ -149,7 +149,7 @@ def obstacle_answers(ob, ts, what=("occ", "state")):
         if "occ" in what:
             row.append(ans(lambda: occ_full(ob.occupancy_at_time(t))))
         if "state" in what and not isinstance(ob, PhantomObstacle):
-            row.append(ans(lambda: state_desc(ob.state_at_time(t))))
+            row.append(ans(lambda: state_desc(ob.state_at_time(np.int64(t) if t % 2 else t))))
         out[t] = row
     return out
 
@@ -164,7 +164,7 @@ def lanelet_answers(la, what=("poly", "dist")):
 
 
 def light_answers(cycle_or_light, ts):
-    return [ans(lambda: cycle_or_light.get_state_at_time_step(t).name) for t in ts]
+    return [ans(lambda: cycle_or_light.get_state_at_time_step(np.int64(t) if t % 3 == 0 else t).name) for t in ts]
 
 
 def cycle_ts(c):
